@@ -75,7 +75,7 @@ Ev(e) ==
        /\ Chk(e.slot \notin Slots \/ e.result = "ok" \/ pc[e.slot] = "idle", "proto_unfinished")
        /\ Chk(P!PInv, "proto_invariant")
        \* a stream that cannot be set up is reported as an error
-       /\ Chk(e.result = "ok" => (e.size > 0 /\ e.size % 4096 = 0 /\ e.size % e.elem = 0), "bad_size_accepted")
+       /\ Chk(e.result = "ok" => (e.size > 0 /\ e.size % 4096 = 0 /\ e.elem > 0 /\ e.size % e.elem = 0), "bad_size_accepted")
        /\ IF e.result = "ok"
           THEN /\ Chk(\E r \in {p.r : p \in parts \ cur.before} : TwoHalves(r, e.size), "halves_not_aliased")
                \* the reserved range is never given up during a successful set-up: a hole could
